@@ -445,6 +445,42 @@ Fixpoint gap_free (l : list record) : bool :=
   | _ => true
   end.
 
+(* ---------- raft/log.go: serializeEntry / deserializeEntry (format 1) ---------- *)
+(* encoding/binary PutUvarint: 7 bits per byte, least significant group first, high bit = "more" *)
+Fixpoint put_uvarint (fuel : nat) (x : N) : bytes :=
+  match fuel with
+  | O => [x]
+  | S f => if x <? 128 then [x] else (x mod 128 + 128) :: put_uvarint f (x / 128)
+  end.
+
+(* encoding/binary Uvarint: value and number of bytes read; 0 = buffer too small, negative = overflow *)
+Fixpoint get_uvarint (buf : bytes) (i : nat) (x s : N) : N * Z :=
+  match buf with
+  | [] => (0, 0%Z)
+  | b :: r =>
+    if Nat.eqb i 10 then (0, (- Z.of_nat (i + 1))%Z)
+    else if b <? 128 then
+      if Nat.eqb i 9 && (1 <? b) then (0, (- Z.of_nat (i + 1))%Z)
+      else (x + b * 2 ^ s, Z.of_nat (i + 1))
+    else get_uvarint r (S i) (x + (b mod 128) * 2 ^ s) (s + 7)
+  end.
+
+Record entry := mkEntry { e_type : N; e_term : N; e_cmd : bytes }.
+Definition entry_format1 : N := 128.
+Definition serialize_entry (e : entry) : bytes :=
+  entry_format1 :: e_type e :: put_uvarint 10 (e_term e) ++ e_cmd e.
+(* result code: 0 ok, 1 errBadEntryFormat, 2 errCorruptedEntry *)
+Definition deserialize_entry (b : bytes) : Z * entry :=
+  match b with
+  | f :: ty :: r =>
+    if f =? entry_format1 then
+      let '(term, k) := get_uvarint r 0 0 0 in
+      if (k <=? 0)%Z then (2%Z, mkEntry 0 0 [])
+      else (0%Z, mkEntry ty term (skipn (Z.to_nat k) r))
+    else (1%Z, mkEntry 0 0 [])
+  | _ => (1%Z, mkEntry 0 0 [])
+  end.
+
 (* ---------- wire: operations and observations ---------- *)
 Inductive under := UFs (l : fslog) | UMem (m : memlog).
 Record state := mkSt {
@@ -506,6 +542,10 @@ Fixpoint take_recs (n : nat) (l : list Z) : option (list (N * rle) * list Z) :=
   end.
 
 Definition bad : list Z := [(-1)%Z].
+
+Definition two32 : N := 0x100000000.
+Definition enc_entry (rc : Z) (e : entry) : list Z :=
+  [rc; zN (e_type e); zN (e_term e / two32); zN (e_term e mod two32); zN (blen (e_cmd e)); zN (crc32c_fast (e_cmd e))].
 
 (* underlying-log operations *)
 Definition u_append (fx : fixes) (u : under) (d : fs) (recs : list (N * rle)) : Z * under * fs * list mut :=
@@ -602,6 +642,20 @@ Definition step (os : option state) (op : list Z) : option state * list Z :=
   | [7; j; cut]%Z, Some s =>
     let c := if (cut <? 0)%Z then None else Some (Z.to_N cut) in
     (os, crash_obs (st_fx s) (st_max s) (crash_fs (st_prev_fs s) (st_last_muts s) (Z.to_nat j) c))
+  | (8 :: ty :: thi :: tlo :: nr :: rest)%Z, _ =>
+    match take_runs (Z.to_nat nr) rest with
+    | Some (d, []) =>
+      let e := mkEntry (Z.to_N ty) (Z.to_N thi * two32 + Z.to_N tlo) (rle_expand d) in
+      let b := serialize_entry e in
+      let '(rc, e') := deserialize_entry b in
+      (os, [zN (blen b); zN (crc32c_fast b)] ++ enc_entry rc e')
+    | _ => (os, bad)
+    end
+  | (9 :: nr :: rest)%Z, _ =>
+    match take_runs (Z.to_nat nr) rest with
+    | Some (d, []) => let '(rc, e') := deserialize_entry (rle_expand d) in (os, enc_entry rc e')
+    | _ => (os, bad)
+    end
   | _, _ => (os, bad)
   end.
 
